@@ -26,7 +26,7 @@ if [ "${PIPESTATUS[0]}" != 0 ]; then echo "MUTANT-DOES-NOT-BUILD"; fi
 (cd "$D" && go vet ./$(dirname $file) >/dev/null 2>&1) || echo "(vet complains)"
 rc=0
 for p in ${props//,/ }; do
-  mkdir -p "$D/.verif"
+  mkdir -p "$D/.verif"; cp "$V/known_findings.txt" "$D/.verif/" 2>/dev/null
   "$V/bin/vcheck" -p $p -repo "$D" -verif "$D/.verif" > "$D/.out" 2>&1; r=$?
   grep -E "^  (VIOLATED|UNDECIDED)|^INFRA" "$D/.out" | sed "s#$D/##g" | cut -c1-400 | head -8
   echo "== $p exit=$r"
